@@ -28,11 +28,26 @@ type chunkReader struct {
 	eofWith bool // deliver io.EOF together with the last bytes
 	failAt  int  // byte offset from which every read fails (-1: never)
 	reads   int
+	failErr error
 }
+
+// timeoutErr is what a network connection returns when a deadline passes.
+type timeoutErr struct{}
+
+func (timeoutErr) Error() string   { return "i/o timeout (injected)" }
+func (timeoutErr) Timeout() bool   { return true }
+func (timeoutErr) Temporary() bool { return true }
+
+// failKinds: the errors real sources fail with. A truncated gzip stream or HTTP body returns
+// io.ErrUnexpectedEOF; none of them is a clean end of data.
+var failKinds = []error{errBoom, io.ErrUnexpectedEOF, io.ErrClosedPipe, fmt.Errorf("read tcp: %w", io.ErrUnexpectedEOF), timeoutErr{}, io.ErrNoProgress}
 
 func (c *chunkReader) Read(p []byte) (int, error) {
 	c.reads++
 	if c.failAt >= 0 && c.pos >= c.failAt {
+		if c.failErr != nil {
+			return 0, c.failErr
+		}
 		return 0, errBoom
 	}
 	if c.pos >= len(c.data) {
@@ -70,6 +85,7 @@ type IOCase struct {
 	Chunks   []int  `json:"chunks,omitempty"`
 	EOFWith  bool   `json:"eof_with_data,omitempty"`
 	FailAt   int    `json:"fail_at"`
+	ErrKind  int    `json:"error_kind,omitempty"` // index into failKinds
 	// writers
 	Mode    int            `json:"mode,omitempty"`
 	Once    bool           `json:"once,omitempty"`
@@ -117,12 +133,12 @@ func runReadChunk(k IOCase) string {
 
 func runReadFault(k IOCase) string {
 	data, _ := hex.DecodeString(k.InputHex)
-	got := readWith(&chunkReader{data: data, chunks: k.Chunks, failAt: k.FailAt})
+	got := readWith(&chunkReader{data: data, chunks: k.Chunks, failAt: k.FailAt, failErr: failKinds[k.ErrKind%len(failKinds)]})
 	if got.obs.Panic != "" {
 		return "panic: " + got.obs.Panic
 	}
 	if got.rerr == nil {
-		return fmt.Sprintf("read failure at byte %d of %d: traversal ended with Err() == nil after %d values", k.FailAt, len(data), model.Count(got.vals))
+		return fmt.Sprintf("read failure (%v) at byte %d of %d: traversal ended with Err() == nil after %d values", failKinds[k.ErrKind%len(failKinds)], k.FailAt, len(data), model.Count(got.vals))
 	}
 	return ""
 }
@@ -276,6 +292,16 @@ func runC19(c *Ctx) {
 		if len(vals) == 0 {
 			vals = []*model.Value{model.Int64V(1)}
 		}
+		if i%3 == 0 {
+			// payloads around the sizes at which writers and readers switch strategy (copy vs
+			// reference, inline vs VarUInt length, one buffer vs several)
+			n := []int{63, 64, 65, 127, 128, 129, 200, 300}[i/3%8]
+			vals = append(vals, model.BlobV(bytes.Repeat([]byte{0xB1}, n)), model.Int64V(2), model.ClobV(bytes.Repeat([]byte("c"), n)),
+				model.StrV(string(bytes.Repeat([]byte("s"), n))), model.ListV(model.BlobV(bytes.Repeat([]byte{0xB2}, n)), model.Int64V(3)), model.SymV(model.T("end")))
+			if n > 1000 && len(vals) > 8 {
+				vals = vals[len(vals)-6:]
+			}
+		}
 		c.JournalCase(w, fmt.Sprintf("io case_seed=%d", cs))
 		// ---------- readers ----------
 		for _, binary := range []bool{false, true} {
@@ -326,19 +352,24 @@ func runC19(c *Ctx) {
 				if fa%2 == 1 {
 					chunks = []int{1 + fa%5}
 				}
-				k := IOCase{Kind: "read-fault", InputHex: hx, FailAt: fa, Chunks: chunks}
-				c.Eval(1)
-				if fa > 0 && fa < len(data) {
-					c.NonTrivial(fmt.Sprintf("fault|%s|%d", hx, fa))
-				}
-				if v := runReadFault(k); v != "" {
-					where := "inside"
-					if fa == len(data) {
-						where = "at-end"
-					} else if fa < 4 {
-						where = "in-sniffed-prefix"
+				for ek := range failKinds {
+					if ek > 1 && (fa+i+ek)%3 != 0 {
+						continue // the first two kinds at every offset, the others at every third
 					}
-					ioViolate(c, k, fam+":"+where, v)
+					k := IOCase{Kind: "read-fault", InputHex: hx, FailAt: fa, Chunks: chunks, ErrKind: ek}
+					c.Eval(1)
+					if fa > 0 && fa < len(data) {
+						c.NonTrivial(fmt.Sprintf("fault|%s|%d|%d", hx, fa, ek))
+					}
+					if v := runReadFault(k); v != "" {
+						where := "inside"
+						if fa == len(data) {
+							where = "at-end"
+						} else if fa < 4 {
+							where = "in-sniffed-prefix"
+						}
+						ioViolate(c, k, fmt.Sprintf("%s:%s:err%d", fam, where, ek), v)
+					}
 				}
 			}
 			c.Obs("read_documents", 1)
